@@ -340,6 +340,34 @@ def check(ck):
                 if isinstance(sub_, ast.Attribute) and sub_.attr in ("__name__", "__qualname__") and isinstance(sub_.value, (ast.Attribute, ast.Call)) and (
                         dump(sub_.value) in ("obj.__class__", "type(obj)")):
                     name_attrs.add(sub_.attr)
+    # ... and the module part is the name the module is registered under in sys.modules / the class declares (`__name__`,
+    # `__module__`): other names of a module (`__spec__.name`, `__package__`, `__file__`) differ from it exactly where it matters -
+    # a program started with `python -m app` runs as `__main__`, whose spec is named `app`: a class written as `app.Cls` is loaded
+    # from a second copy of the module
+    for n in gd.live_nodes():
+        for c in node_calls(n):
+            if isinstance(c.func, ast.Attribute) and c.func.attr == "format" and isinstance(c.func.value, ast.Constant) and \
+                    c.func.value.value == "{0}.{1}" and len(c.args) == 2:
+                tm = prov.origin(gd, n, c.args[0])
+                odd = []
+
+                def _scan(x):
+                    if isinstance(x, tuple):
+                        if x and x[0] == "attr" and isinstance(x[2], str) and x[2].startswith("__") and x[2] not in ("__name__", "__module__", "__class__"):
+                            odd.append(x[2])
+                        if x and x[0] == "const" and isinstance(x[1], str) and x[1].startswith("__") and x[1].endswith("__") and \
+                                x[1] not in ("__name__", "__module__", "__class__", "__main__"):
+                            odd.append(x[1])
+                        for y in x:
+                            _scan(y)
+                    elif isinstance(x, frozenset):
+                        for y in x:
+                            _scan(y)
+                _scan(tm)
+                ck.require(not odd, "C07.8", "%s: module part of the class path" % q.fn(fdump), "__name__ / __module__ only",
+                           "the module name written into the descriptor is computed from %s: not the name the module is imported under "
+                           "(for `python -m pkg.mod` the running module is `__main__` while its spec is named `pkg.mod`)" % sorted(set(odd)),
+                           q.loc(fdump, n))
     fadd = prog.func("config", "LocalClasses.add")
     reg_attrs = set(sub_.attr for sub_ in ast.walk(fadd.node) if isinstance(sub_, ast.Attribute) and sub_.attr in ("__name__", "__qualname__"))
     if not name_attrs or not reg_attrs:
@@ -411,5 +439,5 @@ def check(ck):
 
     # ---- C07.11 nothing but the ignore lists and the type test drops a field (shared with C20.3 / C20.5) --------------------------
     from rules import c20 as _c20f
-    common.import_rules(ck, _c20f, {"C20.3": "C07.11", "C20.5": "C07.11"})
-    ck.floor("C07.11", 5)
+    common.import_rules(ck, _c20f, {"C20.3": "C07.11", "C20.5": "C07.11", "C20.2": "C07.11"})
+    ck.floor("C07.11", 15)
